@@ -56,7 +56,7 @@ func noteCase(prop, text string) {
 	f.WriteAt([]byte(text), 0)
 }
 
-func stat(prop, key string) { stats[prop+"\t"+key]++ }
+func stat(prop, key string)         { stats[prop+"\t"+key]++ }
 func statN(prop, key string, n int) { stats[prop+"\t"+key] += n }
 
 type runner func(rng *sx.Rng, thorough bool)
